@@ -4,7 +4,7 @@ run.  Correspondence: harness/codec drives Encode/Parse of every generated type 
 reflection on type-directed values; runner/Codec replays every line on the extracted model.  Oracle: the round-trip /
 announced-length / unknown-element statements evaluated on the implementation's own results; generator identity by
 regenerating every zz_generated.go with the checked-in generator and comparing bytes."""
-import os, sys, json, hashlib
+import os, sys, json, hashlib, re
 import vlib
 sys.path.insert(0, os.path.join(vlib.VERIF, "translators", "codec"))
 import codecgen, codec_common as cc
@@ -50,7 +50,19 @@ def analyse(R, lines, out, what):
                              dict(trace_line=src[:6000], detail=parts[3][:3000], package=pk["dir"], model=mname,
                                   replay_hint="bin/check C13 --replay <this file> re-runs the trace line's input on the current tree"))
         elif l.startswith("BADLINE"):
+            m = re.match(r"BADLINE (\d+) ", l)
+            if m and 0 < int(m.group(1)) <= len(lines) and lines[int(m.group(1)) - 1].startswith("X "):
+                continue        # implementation-side failure lines are not for the runner (handled below)
             R.proof_problems.append("runner could not parse: " + l[:200])
+    # implementation-side failures (the generated code panicked in Encode, plan inconsistent, ...): concrete inputs
+    for l in lines:
+        if l.startswith("X "):
+            f = l.split(" ")
+            rl = l[:6000]
+            if len(f) > 4 and f[3] == "encode-panic":
+                rl = "E %s %s %s" % (f[1], f[2], f[4])      # replayable: encode this value (wire fields with their buffers) again
+            R.oracle_failure("X:%s:%s/%s" % (f[3] if len(f) > 3 else "?", f[1], f[2]), "implementation-side check failed: " + l[:300],
+                             dict(trace_line=rl, observed=l[:6000]))
     return stats
 
 
@@ -108,9 +120,7 @@ def run(R):
             k = l.split(" ", 1)[0]
             kinds[k] = kinds.get(k, 0) + 1
             if k == "X":
-                f = l.split(" ")
-                R.oracle_failure("X:%s:%s/%s" % (f[3], f[1], f[2]), "implementation-side check failed: " + l[:300], dict(trace_line=l[:6000]))
-                continue
+                continue        # reported by analyse()
             total += 1
             if nontrivial(l):
                 f = l.split(" ")
